@@ -182,3 +182,7 @@ func vhConcretize(v uint64, max int) uint64 {
 func vhSymbolic() bool { return false }
 
 func vhLog(args ...any) {}
+
+// vhSetAllocLimit declares, for the engine, the largest make() length the
+// code under test may request from here on (0 = no limit).
+func vhSetAllocLimit(n int) {}
